@@ -167,6 +167,8 @@ func checkC04(e *Engine, r *Report) {
 					ok = sliceFrom(gb[0].Common().Args[1]).HasValue(fn.Params[1]) && sliceFrom(a[1]).HasValue(fn.Params[1]) && sliceFrom(da[0].Common().Args[len(da[0].Common().Args)-1]).HasValue(fn.Params[1])
 				}
 				r.Check(ok, key+" › carry-over", pos, "re-credit of the balances read before DestroyAccount(address)", "CreateAccount credits something other than exactly the balances that DestroyAccount burnt for the same address")
+				okBurn, whyBurn := destroyBurnsAllBalances(e)
+				r.Check(okBurn, key+" › carry-over is burnt first", pos, "DestroyAccount burns GetAllBalances(address) on every normal exit unless zero", "CreateAccount re-mints the carried-over balances although DestroyAccount does not burn them on every path — "+whyBurn+": the balance exists twice afterwards (supply inflation in every denomination)")
 			default:
 				// P0: constant zero
 				if isZeroBig(amt) {
@@ -207,28 +209,7 @@ func checkC04(e *Engine, r *Report) {
 			}
 		}
 		// Suicide clears the full balance on every successful path
-		addrP := ssa.Value(suicide.Params[1])
-		gbs := callsIn(suicide, false, func(c ssa.CallInstruction) bool { return isBankCall(c, map[string]bool{"GetBalance": true}) })
-		subs := callsIn(suicide, false, func(c ssa.CallInstruction) bool { return c.Common().StaticCallee() == subBal })
-		ok := len(gbs) == 1 && len(subs) == 1
-		if ok {
-			gb := gbs[0]
-			ga := gb.Common().Args
-			ok = sliceFrom(ga[1]).HasValue(addrP) && hasFieldLoad(sliceFrom(ga[2]), "cStateDb", "evmDenom") && isFieldRead(ga[0], "cStateDb", "currentCtx")
-			sa := subs[0].Common().Args
-			ok = ok && resolveLocal(sa[1]) == addrP && sliceFrom(sa[2]).HasValue(gb.(ssa.Value))
-			gZero := boolCallGuards(suicide, true, func(c *ssa.Call) bool {
-				return isMethodNamed(c, "IsZero") && sliceFrom(c.Call.Args[0]).HasValue(gb.(ssa.Value))
-			})
-			for _, ret := range returnsOf(suicide) {
-				if b, isK := constBool(ret.Results[0]); isK && !b {
-					continue
-				}
-				if !passesOr(suicide, ret, subs[0], gZero) {
-					ok = false
-				}
-			}
-		}
+		ok := suicideClearsBalance(e)
 		r.Check(ok, "x/evm/vm.cStateDb.Suicide › success ⇒ balance cleared", e.Pos(suicide.Pos()), "every `true` return passed SubBalance(address, GetBalance(address)) or found the balance zero", "Suicide can report success without debiting the account's whole EVM-denom balance: opSelfdestruct has already credited that balance to the beneficiary, so coins are duplicated (e.g. a repeated SELFDESTRUCT of a re-funded contract)")
 	})
 
@@ -348,4 +329,34 @@ func storesToGlobal(fn *ssa.Function, g *ssa.Global) []*ssa.Store {
 		}
 	})
 	return out
+}
+
+// suicideClearsBalance: every `true` return of cStateDb.Suicide has passed SubBalance(address, GetBalance(address)) or found
+// that balance zero — go-ethereum's StateDB.Suicide zeroes the balance on EVERY call, also a repeated one (shared: C04-R2, C02-R11).
+func suicideClearsBalance(e *Engine) bool {
+	suicide := e.Fn(pkgEvmVM, "cStateDb.Suicide")
+	subBal := e.Fn(pkgEvmVM, "cStateDb.SubBalance")
+	addrP := ssa.Value(suicide.Params[1])
+	gbs := callsIn(suicide, false, func(c ssa.CallInstruction) bool { return isBankCall(c, map[string]bool{"GetBalance": true}) })
+	subs := callsIn(suicide, false, func(c ssa.CallInstruction) bool { return c.Common().StaticCallee() == subBal })
+	ok := len(gbs) == 1 && len(subs) == 1
+	if ok {
+		gb := gbs[0]
+		ga := gb.Common().Args
+		ok = sliceFrom(ga[1]).HasValue(addrP) && hasFieldLoad(sliceFrom(ga[2]), "cStateDb", "evmDenom") && isFieldRead(ga[0], "cStateDb", "currentCtx")
+		sa := subs[0].Common().Args
+		ok = ok && resolveLocal(sa[1]) == addrP && sliceFrom(sa[2]).HasValue(gb.(ssa.Value))
+		gZero := boolCallGuards(suicide, true, func(c *ssa.Call) bool {
+			return isMethodNamed(c, "IsZero") && sliceFrom(c.Call.Args[0]).HasValue(gb.(ssa.Value))
+		})
+		for _, ret := range returnsOf(suicide) {
+			if b, isK := constBool(ret.Results[0]); isK && !b {
+				continue
+			}
+			if !passesOr(suicide, ret, subs[0], gZero) {
+				ok = false
+			}
+		}
+	}
+	return ok
 }
